@@ -420,9 +420,66 @@ pub fn conv_obs(what: u32, b: u8) -> Obs {
 pub struct Session<'c, 'm> {
     pub ctx: &'c mut MCTPSMBusContext<'m>,
     pub alt: &'c MCTPSMBusContext<'m>,
+    /// a second context with the same configuration that sees the same operations except processed packets
+    /// whose PEC is wrong (C02: such a packet must not change any later output)
+    pub twin: &'c mut MCTPSMBusContext<'m>,
+    pub twin_on: bool,
     pub out: String,
     pub nops: usize,
     pub nvend: usize,
+}
+
+fn run_op(ctx: &mut MCTPSMBusContext, alt: &MCTPSMBusContext, op: &Op) -> Obs {
+    match op {
+        Op::Process(pkt, buf0) => {
+            let mut buf = buf0.clone();
+            let ctx = &*ctx;
+            let r = catch_unwind(AssertUnwindSafe(|| match ctx.process_packet(pkt, &mut buf) {
+                Ok(((mt, payload), resp)) => {
+                    let (o, l) = rng_of(pkt, payload);
+                    (true, mt_u8(&mt), o, l, resp, 0u32)
+                }
+                Err((mt, e)) => (false, mt_u8(&mt), 0, 0, None, derr_code(&e)),
+            }));
+            match r {
+                Err(_) => Obs::Panic(buf),
+                Ok((true, mt, o, l, resp, _)) => Obs::ProcOk(mt, o, l, resp, buf),
+                Ok((false, mt, _, _, _, e)) => Obs::ProcErr(mt, e, buf),
+            }
+        }
+        Op::Decode(pkt) => {
+            let a = decode_obs(ctx, pkt);
+            let b = decode_obs(alt, pkt);
+            if a == b { a } else { Obs::Bad }
+        }
+        Op::GetLength(pkt) => {
+            let a = len_obs(ctx, pkt);
+            let b = len_obs(alt, pkt);
+            if a == b { a } else { Obs::Bad }
+        }
+        Op::SetEid(req, e) => {
+            if *req {
+                ctx.get_request().set_eid(*e)
+            } else {
+                ctx.get_response().set_eid(*e)
+            }
+            Obs::Unit
+        }
+        Op::SetUuid(u) => match catch_unwind(AssertUnwindSafe(|| ctx.set_uuid(u))) {
+            Ok(()) => Obs::Unit,
+            Err(_) => Obs::Panic(vec![]),
+        },
+        Op::Encode { req, id, nums, lists, buf } => encode_obs(ctx, *req, *id, nums, lists, buf),
+        Op::Hdr { what, fld, raw, v } => hdr_obs(*what, *fld, raw, *v),
+        Op::Conv(what, b) => conv_obs(*what, *b),
+    }
+}
+
+fn pec_is_bad(pkt: &[u8]) -> bool {
+    if pkt.is_empty() {
+        return true;
+    }
+    crate::gen::crc8(&pkt[..pkt.len() - 1]) != pkt[pkt.len() - 1]
 }
 
 impl<'c, 'm> Session<'c, 'm> {
@@ -431,52 +488,17 @@ impl<'c, 'm> Session<'c, 'm> {
     }
 
     pub fn op(&mut self, op: Op) -> Obs {
-        let obs = match &op {
-            Op::Process(pkt, buf0) => {
-                let mut buf = buf0.clone();
-                let ctx = &*self.ctx;
-                let r = catch_unwind(AssertUnwindSafe(|| match ctx.process_packet(pkt, &mut buf) {
-                    Ok(((mt, payload), resp)) => {
-                        let (o, l) = rng_of(pkt, payload);
-                        (true, mt_u8(&mt), o, l, resp, 0u32)
-                    }
-                    Err((mt, e)) => (false, mt_u8(&mt), 0, 0, None, derr_code(&e)),
-                }));
-                match r {
-                    Err(_) => Obs::Panic(buf),
-                    Ok((true, mt, o, l, resp, _)) => Obs::ProcOk(mt, o, l, resp, buf),
-                    Ok((false, mt, _, _, _, e)) => Obs::ProcErr(mt, e, buf),
+        let mut obs = run_op(self.ctx, self.alt, &op);
+        if self.twin_on {
+            let skip = matches!(&op, Op::Process(p, _) if pec_is_bad(p));
+            if !skip {
+                let t = run_op(self.twin, self.alt, &op);
+                let te = (self.twin.get_request().get_eid(), self.twin.get_response().get_eid());
+                if t != obs || te != self.eids() {
+                    obs = Obs::Bad;
                 }
             }
-            Op::Decode(pkt) => {
-                let a = decode_obs(self.ctx, pkt);
-                let b = decode_obs(self.alt, pkt);
-                if a == b { a } else { Obs::Bad }
-            }
-            Op::GetLength(pkt) => {
-                let a = len_obs(self.ctx, pkt);
-                let b = len_obs(self.alt, pkt);
-                if a == b { a } else { Obs::Bad }
-            }
-            Op::SetEid(req, e) => {
-                if *req {
-                    self.ctx.get_request().set_eid(*e)
-                } else {
-                    self.ctx.get_response().set_eid(*e)
-                }
-                Obs::Unit
-            }
-            Op::SetUuid(u) => {
-                let ctx = &mut *self.ctx;
-                match catch_unwind(AssertUnwindSafe(|| ctx.set_uuid(u))) {
-                    Ok(()) => Obs::Unit,
-                    Err(_) => Obs::Panic(vec![]),
-                }
-            }
-            Op::Encode { req, id, nums, lists, buf } => encode_obs(self.ctx, *req, *id, nums, lists, buf),
-            Op::Hdr { what, fld, raw, v } => hdr_obs(*what, *fld, raw, *v),
-            Op::Conv(what, b) => conv_obs(*what, *b),
-        };
+        }
         self.log(&op, &obs);
         obs
     }
@@ -552,7 +574,8 @@ pub fn with_session<F: FnOnce(&mut Session)>(id: u64, stratum: &str, cfg: &Cfg, 
             let _ = catch_unwind(AssertUnwindSafe(|| { let _ = alt.process_packet(&b[..n], &mut rb); }));
         }
     }
-    let mut s = Session { ctx: &mut ctx, alt: &alt, out: String::new(), nops: 0, nvend: cfg.vendor_ids.len() };
+    let mut twin = MCTPSMBusContext::new(cfg.addr, &cfg.msg_types, &vids);
+    let mut s = Session { ctx: &mut ctx, alt: &alt, twin: &mut twin, twin_on: false, out: String::new(), nops: 0, nvend: cfg.vendor_ids.len() };
     let _ = writeln!(s.out, "C {} {}", id, stratum);
     let _ = write!(s.out, "G {} {} {}", cfg.addr, hex(&cfg.msg_types), cfg.vendor_ids.len());
     for (f, d, n) in &cfg.vendor_ids {
